@@ -589,6 +589,10 @@ pub enum HOp {
 pub struct HasherCase {
     pub cnf: CnfCase,
     pub ops: Vec<HOp>,
+    /// when set, the CNF under test is `cnf.condition(literal)`: a formula obtained by conditioning carries a
+    /// hasher of its own, which must be the hasher of the conditioned clause list
+    #[serde(default)]
+    pub pre_condition: Option<(u8, bool)>,
 }
 
 pub struct Hasher;
@@ -596,7 +600,14 @@ pub struct Hasher;
 type Resid = BTreeSet<(usize, BTreeSet<(usize, bool)>)>;
 
 pub fn run_hasher(case: &HasherCase, st: &mut Stats) -> CaseResult {
-    let cnf = case.cnf.to_rsdd();
+    let base = case.cnf.to_rsdd();
+    let cnf = match case.pre_condition {
+        Some((v, b)) if base.num_vars() > 0 => {
+            st.bump("hasher.of_a_conditioned_cnf");
+            base.condition(Literal::new(VarLabel::new_usize(((v as usize) * base.num_vars()) >> 8), b))
+        }
+        _ => base,
+    };
     let n = cnf.num_vars();
     let mut h = cnf.hasher().clone();
     // clauses exactly as the hasher sees them
@@ -748,7 +759,7 @@ pub fn run_hasher(case: &HasherCase, st: &mut Stats) -> CaseResult {
 impl SubCheckT for Hasher {
     type Case = HasherCase;
     const NAME: &'static str = "hasher";
-    const RULE: &'static str = "CnfHasher (clone of cnf.hasher()) under histories of push / decide / pop (pop only above depth 0; decides consistent with the decisions in effect) and hash(m) where m = decisions in effect + random consistent extras and m falsifies no clause: residual R(m) = {(clause occurrence, its unassigned literals)} over unsatisfied clauses of length > 1; equal residuals => equal hashes, and for every pair of states whose products of residual-occurrence primes (k-th occurrence = k-th prime) fit in 128 bits, equal hashes => equal residuals. Non-trivial: >=1 pop and two different assignments with equal residuals";
+    const RULE: &'static str = "CnfHasher (clone of cnf.hasher(), in 30 % of the cases of a CNF obtained by condition()) under histories of push / decide / pop (pop only above depth 0; decides consistent with the decisions in effect) and hash(m) where m = decisions in effect + random consistent extras and m falsifies no clause: residual R(m) = {(clause occurrence, its unassigned literals)} over unsatisfied clauses of length > 1; equal residuals => equal hashes, and for every pair of states whose products of residual-occurrence primes (k-th occurrence = k-th prime) fit in 128 bits, equal hashes => equal residuals. Non-trivial: >=1 pop and two different assignments with equal residuals";
     fn cases(tier: Tier) -> u32 {
         tier.pick(10_000, 150_000)
     }
@@ -759,8 +770,8 @@ impl SubCheckT for Hasher {
             3 => (any::<u8>(), any::<bool>()).prop_map(|(v, b)| HOp::Decide(v, b)),
             5 => proptest::collection::vec(proptest::option::weighted(0.35, any::<bool>()), 8).prop_map(HOp::Hash),
         ];
-        (sat_cnf_strategy(), proptest::collection::vec(op, 0..=40))
-            .prop_map(|(cnf, ops)| HasherCase { cnf, ops })
+        (sat_cnf_strategy(), proptest::collection::vec(op, 0..=40), proptest::option::weighted(0.3, (any::<u8>(), any::<bool>())))
+            .prop_map(|(cnf, ops, pre_condition)| HasherCase { cnf, ops, pre_condition })
             .boxed()
     }
     fn run(case: &HasherCase, st: &mut Stats) -> CaseResult {
@@ -779,7 +790,7 @@ pub fn property() -> Property {
         assumptions: vec![
             "CNFs over <= 7 variables; exact small-integer weights",
             "hash(m) is only compared for assignments m that contain every decision in effect and falsify no clause, as the statement requires",
-            "residual identity is occurrence-level (one prime per literal occurrence); 'only then' is asserted only when the prime product cannot exceed 128 bits (<= 26 literal occurrences)",
+            "residual identity is occurrence-level (one prime per literal occurrence); 'only then' is asserted for pairs of states whose products of residual-occurrence primes both fit in 128 bits",
         ],
         nt_floor_percent: 5,
     }
